@@ -6,6 +6,7 @@ import RzilVerif.Model.DriverPP
 import RzilVerif.Model.DriverSem
 import RzilVerif.Model.DriverMeta
 import RzilVerif.Model.Operands
+import RzilVerif.Model.DriverLayout
 open Rzil
 
 def dispatch (st : DState) (line : String) : DState × String :=
@@ -35,7 +36,10 @@ def dispatch (st : DState) (line : String) : DState × String :=
                 | none =>
                   match Operands.handleEnum xs with
                   | some r => (st, toString r)
-                  | none => (st, "(error bad-request)")
+                  | none =>
+                    match handleLayout xs with
+                    | some r => (st, toString r)
+                    | none => (st, "(error bad-request)")
   | some _ => (st, "(error bad-request)")
 
 partial def loop (hin : IO.FS.Stream) (hout : IO.FS.Stream) (st : DState) : IO Unit := do
